@@ -1,6 +1,7 @@
 import AmVerif.Proofs.Myers
+import AmVerif.Proofs.MyersBounds
 import AmVerif.Proofs.UpdateText
-import AmVerif.Model.Reconcile
+import AmVerif.Proofs.Reconcile
 /-
   C27 — Reconciliation and bulk-construction calls reach their target value.
   Property theorems only; helper lemmas are in `AmVerif.Proofs.Myers` / `AmVerif.Proofs.UpdateText`.
@@ -12,8 +13,9 @@ import AmVerif.Model.Reconcile
   NOT decided by proof (direct oracles of the `recon` harness engine only; no model was built):
   `update_object`, `update_spans`, `batch_create_object`, `init_root_from_hydrate`,
   `init_from_hydrate`, `splice` with nested values.  The oracles REFUTE several of those clauses on
-  the real code (list shrinking in `update_object`, multi-element graphemes and UTF-8 blocks in
-  `update_spans`, `init_*_from_hydrate` on a non-empty document); see the worker report.
+  the code as first examined (list shrinking in `update_object`, multi-element graphemes and UTF-8
+  blocks in `update_spans`, `init_*_from_hydrate` on a non-empty document — all four since fixed in
+  /repo: 072d9542b, 2c4964131, 51ce52dee, 23ec14d23); see the worker report.
 -/
 namespace AmVerif.Props.C27
 open AmVerif AmVerif.Myers AmVerif.UpdateText
@@ -46,21 +48,36 @@ omit [LawfulBEq α] in
 theorem C27_fuel_suffices (a b : List α) : diff a b ≠ .outOfFuel :=
   diff_ne_outOfFuel a b
 
-/-- PARTIAL (what is missing: `middle_snake_in_range` — that `find_middle_snake` always answers with
-    a point inside the rectangle other than its two corners, and never indexes a `V` array out of
-    bounds; this needs the furthest-reaching-path theory of Myers' paper and is not proved.  The
-    correspondence run compares the model's script with the implementation's and the model never
-    reported `invalidSplit`/`panic` on any generated input, nor on the exhaustive set of all pairs
-    of sequences of length ≤ 7 over 2 letters and ≤ 5 over 3 letters).
-    The diff either returns a correct script, or stops in one of the two explicit failure outcomes. -/
+omit [LawfulBEq α] in
+/-- The diff never panics: every index into the `V` arrays of `find_middle_snake`
+    (`&self.v[(index + self.offset) as usize]`, reads and writes, forward and backward) is in bounds
+    and both `assert!(v.len() >= d_max)` hold, for all inputs. -/
+theorem C27_diff_no_panic (a b : List α) (p : PanicSite) : diff a b ≠ .panic p :=
+  diff_ne_panic a b p
+
+/-- PARTIAL (what is missing: `middle_snake_in_range` — that the point `find_middle_snake` answers
+    with always lies inside the rectangle and is not one of its two corners; this needs the
+    furthest-reaching-path theory of Myers' paper and is not proved.  The correspondence run compares
+    the model's script with the implementation's and the model never reported `invalidSplit` on any
+    generated input, nor on the exhaustive set of all pairs of sequences of length ≤ 7 over 2 letters
+    and ≤ 5 over 3 letters).
+    The diff either returns a correct script, or stops in the single explicit failure outcome
+    `invalidSplit`; running out of fuel and panicking are excluded. -/
 theorem C27_diff_partial (a b : List α) :
     (∃ script, diff a b = .ok script ∧ applyScript a b script = b ∧ consumed a script = a)
-    ∨ diff a b = .invalidSplit ∨ (∃ p, diff a b = .panic p) := by
+    ∨ diff a b = .invalidSplit := by
   cases h : diff a b with
   | ok s => exact .inl ⟨s, rfl, C27_script_correct a b s h, C27_script_consumes a b s h⟩
-  | invalidSplit => exact .inr (.inl rfl)
+  | invalidSplit => exact .inr rfl
   | outOfFuel => exact absurd h (C27_fuel_suffices a b)
-  | panic p => exact .inr (.inr ⟨p, rfl⟩)
+  | panic p => exact absurd h (C27_diff_no_panic a b p)
+
+/-- Strengthening of `C27_diff_partial` on the inputs where `find_middle_snake` is never reached:
+    an empty old text (a pure insertion), an empty target (a pure deletion) and an unchanged text give
+    a script outright — `invalidSplit` is not possible there. -/
+theorem C27_diff_total_trivial_cases (a : List α) :
+    (∃ s, diff ([] : List α) a = .ok s) ∧ (∃ s, diff a ([] : List α) = .ok s) ∧ (∃ s, diff a a = .ok s) :=
+  ⟨⟨_, diff_nil_left a⟩, ⟨_, diff_nil_right a⟩, ⟨_, diff_self a⟩⟩
 end
 
 /-- non-vacuity: the example of the Rust unit test (`ABCABBA` → `CBABAC`) produces a script, and it
@@ -77,8 +94,8 @@ example :
     cluster's width — true whenever the text was built by `splice_text` under a code-unit encoding,
     because elements are code points and widths are additive, `unitWidth_append`); the target's
     clusters start with a UTF-8 lead byte.  Conclusion: if `update_text` returns, the text is the
-    target.  Missing for the full statement: (a) the outcomes `invalidSplit` / `panic` of the diff
-    are not excluded (see `C27_diff_partial`); (b) without alignment the statement is FALSE, on the
+    target.  Missing for the full statement: (a) the outcome `invalidSplit` of the diff and an error
+    return of a hook call are not excluded (see `C27_diff_partial`); (b) without alignment the statement is FALSE, on the
     model and on the real code — `C27_update_text_misaligned_refuted` below. -/
 theorem C27_update_text_aligned_partial (enc : Enc) (gp : List (List Elem × Piece)) (new : List Piece)
     (hgp : ∀ x ∈ gp, GroupOK enc x) (hnew : ∀ p ∈ new, LeadOK p) (st : St)
@@ -161,21 +178,20 @@ theorem C27_width_append (enc : Enc) (henc : enc ≠ .gc) (a b : Bytes) :
 /-- non-vacuity: "é" ++ "😀" under UTF-16 has width 1 + 2. -/
 example : unitWidth .utf16 ([0xc3, 0xa9] ++ [0xf0, 0x9f, 0x98, 0x80]) = 3 := by decide
 
-/-- "After update_object(obj, v) the object's value equals v": REFUTED (negated form on a concrete
-    witness; the same input violates the property on the real code — harness line
-    `recon.update_object cp M{6c=L[i1;i2;i3]} M{6c=L[i9]} _ -` answers `M{6c=L[i3]}`, oracle
-    `! C27 sig=update_object-list-shrink`).  When the target list is shorter, `update_list` deletes
-    indexes `to_delete-1 … 0`, i.e. the FIRST `to_delete` elements (just overwritten with the target
-    values), instead of the trailing ones: `[1,2,3]` reconciled to `[9]` becomes `[3]`. -/
-theorem C27_update_list_refuted :
-    ¬ (∀ (old new : List Nat), Reconcile.updateListFlat old new = new) := by
-  intro h
-  exact absurd (h [1, 2, 3] [9]) (by decide)
+/-- "After update_object(obj, v) the object's value equals v", for a list of scalars (the
+    `update_list` loop of the fixed code, /repo commit 072d9542b; nested values and maps are decided
+    by the direct oracle of `recon.update_object` only): whatever the old and the new list, the
+    positional pass followed by the deletion of the trailing surplus items yields the new list. -/
+theorem C27_update_list_reaches {α : Type} (old new : List α) :
+    Reconcile.updateListFlat old new = new :=
+  Reconcile.updateListFlat_eq old new
 
-/-- what the model computes on the witness, and that growing / equal-length targets are reached -/
-example : Reconcile.updateListFlat [1, 2, 3] [9] = [3]
-    ∧ Reconcile.updateListFlat [1, 2, 3] [1, 2] = [2, 3]
+/-- non-vacuity, and the witness of the former defect: `[1,2,3]` reconciled to `[9]` is now `[9]`
+    (the code before the fix deleted indexes `to_delete-1 … 0` and left `[3]`; harness line
+    `recon.update_object cp M{6c=L[i1;i2;i3]} M{6c=L[i9]} _ -`). -/
+example : Reconcile.updateListFlat [1, 2, 3] [9] = [9]
+    ∧ Reconcile.updateListFlat [1, 2, 3] [1, 2] = [1, 2]
     ∧ Reconcile.updateListFlat [1, 2] [7, 8, 9] = [7, 8, 9]
-    ∧ Reconcile.updateListFlat [1, 2] [5, 6] = [5, 6] := by decide
+    ∧ Reconcile.updateListFlatBeforeFix [1, 2, 3] [9] = [3] := by decide
 
 end AmVerif.Props.C27
